@@ -465,7 +465,7 @@ func (kvsm *kvStoreSM) localIncrByCommand(cmd redcon.Command, ts int64) (interfa
 }
 
 func (kvsm *kvStoreSM) localDelCommand(cmd redcon.Command, ts int64) (interface{}, error) {
-	cnt, err := kvsm.store.DelKeys(cmd.Args[1:]...)
+	cnt, err := kvsm.store.DelKeysAt(ts, cmd.Args[1:]...)
 	if err != nil {
 		nodeLog.Infof("failed to delete keys: %v, %v", string(cmd.Raw), err)
 		return 0, err
